@@ -68,6 +68,19 @@ def load_repo():
     if root not in sys.path:
         sys.path.insert(0, root)
     import logging
+    if sys.version_info < (3, 12) and not getattr(Fraction, "_g3dvc_format_shim", False):
+        # the repository's interpreter is 3.12, where Fraction supports float format specs;
+        # Point.__init__ formats its coordinates with {:.2f} for a debug log message
+        _orig_format = Fraction.__format__
+
+        def _fmt(self, spec):
+            try:
+                return _orig_format(self, spec)
+            except (TypeError, ValueError):
+                return format(float(self), spec)
+
+        Fraction.__format__ = _fmt
+        Fraction._g3dvc_format_shim = True
     g = importlib.import_module("Geometry3D")
     if os.path.realpath(os.path.dirname(os.path.dirname(g.__file__))) != os.path.realpath(root):
         raise RuntimeError("Geometry3D imported from %s, not from %s" % (g.__file__, root))
@@ -149,6 +162,14 @@ class Rebinder(object):
 
 # names rebound while proving (listed in the evidence) -----------------------
 
+_HINT_CACHE = {}
+_HINT_KEEP = []
+
+
+def _rv(fr):
+    return z3.RealVal(str(fr))
+
+
 def _sym_float(x=0.0):
     if isinstance(x, Sym):
         return x
@@ -181,6 +202,8 @@ LIB_FLOAT_MODULES = [
 REBOUND_NAMES = [
     "float in %s -> identity on symbolic reals" % ", ".join(LIB_FLOAT_MODULES),
     "math.sqrt -> symbolic square root (fork on negative radicand => ValueError)",
+    "math.acos -> angle token theta with 0 <= theta <= pi, theta {<,=,>} pi/2 <=> cos {>,=,<} 0, theta = 0 <=> cos = 1, theta = pi <=> cos = -1, "
+    "theta < 0.1 <=> cos > cos(0.1) (bracketed), antitone in the cosine; domain |cos| <= 1 is an obligation (ValueError otherwise)",
 ]
 
 
@@ -191,11 +214,15 @@ def install_numeric_patches(rb):
     def sym_sqrt(x):
         return S.engine().sqrt(Sym(x), complex_on_negative=False)
 
-    if "sqrt" not in _MATH_ORIG:
-        _MATH_ORIG["sqrt"] = math.sqrt
-    w = _dispatch("sqrt", sym_sqrt)
-    rb.undo.append((math, "sqrt", _MATH_ORIG["sqrt"], True))
-    math.sqrt = w
+    def sym_acos(x):
+        return S.engine().acos(Sym(x))
+
+    for nm, fn in (("sqrt", sym_sqrt), ("acos", sym_acos)):
+        if nm not in _MATH_ORIG:
+            _MATH_ORIG[nm] = getattr(math, nm)
+        w = _dispatch(nm, fn)
+        rb.undo.append((math, nm, _MATH_ORIG[nm], True))
+        setattr(math, nm, w)
 
 
 # ---------------------------------------------------------------------------
@@ -236,7 +263,11 @@ class Engine(object):
         self.sqrt_cache = {}
         self.div_cache = {}
         self.notes = []
-        self.ghosts = {}
+        self.path_ghosts = []
+        self.acos_terms = {}
+        self.script_log = []
+        self.log = {}
+        self.on_call = {}
 
     def fresh(self, hint="v", sort="real"):
         n = self.counter.get(hint, 0)
@@ -374,6 +405,114 @@ class Engine(object):
 
     def round_(self, x, k):
         raise TypeError("round() of a symbolic real outside the hash world")
+
+    PI = Fraction(math.pi)
+    # cos(0.1) bracketed by rationals 1e-12 apart (SMALL_ANGLE = 0.1 is the only angle constant the library compares with)
+    COS_BRACKETS = {Fraction(0.1): (Fraction(995004165278, 10 ** 12), Fraction(995004165279, 10 ** 12))}
+
+    def acos(self, c):
+        """angle token for math.acos(c) (assumption A3)"""
+        if c.c is not None:
+            if c.c < -1 or c.c > 1:
+                raise ValueError("math domain error")
+            if c.c == 1:
+                return Sym(0)
+            if c.c == 0:
+                return Sym(self.PI / 2)
+            if c.c == -1:
+                return Sym(self.PI)
+        else:
+            if self.branch(z3.Or(c.t < -1, c.t > 1)):
+                self.note("math.acos argument can leave [-1, 1]")
+                raise ValueError("math domain error")
+        key = ("acos", c.t.get_id())
+        if key in self.sqrt_cache:
+            return self.sqrt_cache[key]
+        th = self.fresh("acos")
+        pi = _rv(self.PI)
+        t, ct = th.t, c.t
+        fs = [t >= 0, t <= pi, (t == 0) == (ct == 1), (t == pi) == (ct == -1), (t < pi / 2) == (ct > 0), (t == pi / 2) == (ct == 0)]
+        for k, (lo, hi) in self.COS_BRACKETS.items():
+            fs.append(z3.Implies(ct >= _rv(hi), t < _rv(k)))
+            fs.append(z3.Implies(ct <= _rv(lo), t >= _rv(k)))
+        for (kind, _), (oth, oc) in list(self.acos_terms.items()):
+            fs.append((ct < oc) == (t > oth))
+            fs.append((ct == oc) == (t == oth))
+        self.acos_terms[("acos", c.t.get_id())] = (t, ct)
+        self.facts.append(z3.And(*fs))
+        self.fact_tags.append("def:acos")
+        self.sqrt_cache[key] = th
+        return th
+
+    # proof scaffolding ---------------------------------------------------
+    def hint(self, label, f):
+        """a universally valid identity: proved on its own (no hypotheses),
+        then available as a fact; adding it can never make an unsound proof pass"""
+        f = F(f)
+        if isinstance(f, bool):
+            return
+        key = f.get_id()
+        st = _HINT_CACHE.get(key)
+        if st is None:
+            v = smt.prove(f, [], self.prove_timeout_ms, use_cone=False)
+            st = v["status"]
+            _HINT_CACHE[key] = st
+            _HINT_KEEP.append(f)
+        if st == "proved":
+            self.facts.append(f)
+            self.fact_tags.append("hint:" + label)
+        else:
+            self.note("hint %s not established (%s)" % (label, st))
+
+    def ghost(self, *terms):
+        """sub-terms to be replaced by fresh variables when proving the
+        obligations of this path (the generalised query is tried first)"""
+        for t in terms:
+            self.path_ghosts.append(S.term(t))
+
+    def have(self, label, goal, using=(), abstract=(), timeout_ms=None):
+        """one step of a proof script (DESIGN 3.5): `goal` is proved from the
+        listed formulas only, with the listed sub-terms generalised to fresh
+        variables; each formula in `using` must itself be a current fact (it
+        is checked to be one syntactically, or proved from the facts).  If the
+        step goes through, goal becomes a fact.  A failed step only costs
+        proof coverage (later obligations may stay undecided)."""
+        goal = F(goal)
+        if goal is True:
+            return True
+        hyps = []
+        ids = set(f.get_id() for f in self.facts if not isinstance(f, bool))
+        for u in using:
+            u = F(u)
+            if u is True:
+                continue
+            if u.get_id() not in ids:
+                v = smt.prove(u, self.facts, timeout_ms or self.prove_timeout_ms)
+                if v["status"] != "proved":
+                    self.note("have[%s]: premise not available" % label)
+                    self.script_log.append((label, "premise-missing"))
+                    return False
+            hyps.append(u)
+        g, hs = goal, hyps
+        if abstract:
+            g, hs = _abstracted(goal, hyps, list(abstract))
+        v = smt.prove(g, hs, timeout_ms or self.prove_timeout_ms, use_cone=False)
+        self.script_log.append((label, v["status"], round(v["seconds"], 3)))
+        if v["status"] == "proved":
+            self.facts.append(goal)
+            self.fact_tags.append("have:" + label)
+            return True
+        self.note("have[%s]: %s" % (label, v["status"]))
+        return False
+
+    def prune(self):
+        """abandon the path if its facts are contradictory"""
+        st, _, _ = smt.check_sat(self.facts, self.feas_timeout_ms)
+        if st == "unsat":
+            raise Infeasible()
+
+    def record(self, key, value):
+        self.log.setdefault(key, []).append(value)
 
     # obligations
     def ensure(self, label, f, kind="ensures", abstract=None, hints=None):
@@ -557,6 +696,8 @@ def run_group(name, harness, stubs=(), patches=True, feas_timeout_ms=3000, prove
                 if tag.startswith("admission:"):
                     res.admissions.add(tag[len("admission:"):])
             for ob in eng.obligations:
+                if not ob.abstract and eng.path_ghosts:
+                    ob.abstract = list(eng.path_ghosts)
                 v = prove_obligation(ob, eng.facts, eng.prove_timeout_ms)
                 rec = dict(
                     label=ob.label,
@@ -619,6 +760,8 @@ class ConcreteVC(object):
         self.failed = []
         self.checked = []
         self.notes = []
+        self.on_call = {}
+        self.log = {}
 
     def real(self, name):
         if name not in self.values:
@@ -666,6 +809,21 @@ class ConcreteVC(object):
             return Outcome("exc", e)
 
     def hit(self, target):
+        pass
+
+    def hint(self, label, f):
+        pass
+
+    def ghost(self, *terms):
+        pass
+
+    def have(self, label, goal, using=(), abstract=(), timeout_ms=None):
+        return True
+
+    def prune(self):
+        pass
+
+    def record(self, key, value):
         pass
 
     def snapshot(self, obj):
